@@ -344,4 +344,233 @@ theorem fairRound_spec {cfg : Cfg} (hc : cfg.Ok) {s : Sys} (h : Inv cfg s) :
       rw [stamp_pkt, c2] at hr2
       exact hr2
 
+/-! ## what the invariant says, in `OnlineNet` terms -/
+
+section
+variable {cfg : Cfg} {s : Sys}
+open Tw.NetSim
+
+theorem Inv.core (h : Inv cfg s) (x : Bool) : (s.ep x).Inv cfg := (h x).inv
+theorem Inv.ack (h : Inv cfg s) (x : Bool) : (s.ep (!x)).ack = (s.del (!x)).length % 1024 := (h x).ack
+theorem Inv.pre (h : Inv cfg s) (x : Bool) : s.del (!x) = (s.sub x).take (s.del (!x)).length := (h x).pre
+theorem Inv.dle (h : Inv cfg s) (x : Bool) : (s.del (!x)).length ≤ (s.sub x).length := (h x).dle
+theorem Inv.qlen (h : Inv cfg s) (x : Bool) : (s.ep x).resendQueue.length ≤ 512 := (h x).qlen
+theorem Inv.qwin (h : Inv cfg s) (x : Bool) :
+    (s.sub x).length ≤ (s.del (!x)).length + (s.ep x).resendQueue.length := (h x).qwin
+theorem Inv.q (h : Inv cfg s) (x : Bool) : QueueOk (s.sub x) (s.ep x).resendQueue := (h x).q
+
+end
+
+theorem queueOk_shape {sub : List Bytes} {q : List ResendChunk} (hq : Tw.NetSim.QueueOk sub q) :
+    ∀ i c, q[i]? = some c → i < sub.length ∧ sub[sub.length - 1 - i]? = some c.data ∧
+      c.seq = (sub.length - i) % 1024 := by
+  intro i c hic
+  obtain ⟨h1, h2, h3⟩ := hq i c hic
+  refine ⟨h1, h2, ?_⟩
+  rw [h3]; congr 1; omega
+
+theorem queueOk_len {sub : List Bytes} {q : List ResendChunk} (hq : Tw.NetSim.QueueOk sub q) :
+    q.length ≤ sub.length := by
+  by_cases h : q.length = 0
+  · omega
+  · have := (hq (q.length - 1) _ (List.getElem?_eq_getElem (by omega))).1
+    omega
+
+theorem vitals_flatMap (fls : List Flushed) : vitals (fls.flatMap (·.chunks)) = flVitals fls := by
+  induction fls with
+  | nil => rfl
+  | cons f fls ih => simp [List.flatMap_cons, vitals_append, flVitals, ih] at *
+
+theorem mem_vitals {cs : List Chunk} {c : Chunk} {sq : Nat} {r : Bool} (hc : c ∈ cs) (hv : c.vital = some (sq, r)) :
+    (sq, c.data) ∈ vitals cs := by
+  induction cs with
+  | nil => simp at hc
+  | cons c0 cs ih =>
+    rcases List.mem_cons.mp hc with rfl | hc
+    · simp [vitals, hv]
+    · have := ih hc
+      unfold vitals
+      cases c0.vital with
+      | none => exact this
+      | some v => obtain ⟨s0, r0⟩ := v; exact List.mem_cons_of_mem _ this
+
+theorem mem_flVitals {fls : List Flushed} {p : Flushed} {c : Chunk} {sq : Nat} {r : Bool} (hp : p ∈ fls)
+    (hc : c ∈ p.chunks) (hv : c.vital = some (sq, r)) : (sq, c.data) ∈ flVitals fls := by
+  simp only [flVitals, List.mem_flatMap]
+  exact ⟨p, hp, mem_vitals hc hv⟩
+
+theorem flVitals_nil {fls : List Flushed} (h : flVitals fls = []) : ∀ p ∈ fls, vitals p.chunks = [] := by
+  intro p hp
+  simp only [flVitals, List.flatMap_eq_nil_iff] at h
+  exact h p hp
+
+/-! ## the four stages of one direction (`x` submits, `!x` is handed) -/
+
+/-- everything submitted has been handed over -/
+def Stage1 (s : Sys) (x : Bool) : Prop := (s.del (!x)).length = (s.sub x).length
+/-- … and the sender's queue is empty or the receiver is about to ask for a resend (its next
+datagram will carry the ack) -/
+def Stage2 (s : Sys) (x : Bool) : Prop :=
+  Stage1 s x ∧ ((s.ep x).resendQueue = [] ∨ (s.ep (!x)).requestResend = true)
+/-- … the sender's queue and packet are empty -/
+def Stage3 (s : Sys) (x : Bool) : Prop :=
+  Stage1 s x ∧ (s.ep x).resendQueue = [] ∧ (s.ep x).packet.chunks = []
+/-- … and the receiver asks for nothing -/
+def Stage4 (s : Sys) (x : Bool) : Prop := Stage3 s x ∧ (s.ep (!x)).requestResend = false
+
+variable {cfg : Cfg}
+
+/-- round 1: the resent chunks arrive in order, the receiver is fully up to date -/
+theorem Round.stage1 (hc : cfg.Ok) {s sb s' : Sys} (R : Round cfg s sb s') (x : Bool) : Stage1 s' x := by
+  obtain ⟨fls, hsp, hrl⟩ := R.phase x
+  obtain ⟨_, _, _, _, _, _, sne, _, _⟩ := sendPhase_spec hc (R.inv0.core x) hsp
+  have hackb : (sb.ep (!x)).ack = (s.del (!x)).length % 1024 := by
+    have := R.invb.ack x; rw [R.delb] at this; exact this
+  have hack' := R.inv'.ack x
+  have hdle' : (s'.del (!x)).length ≤ (s.sub x).length := by have := R.inv'.dle x; rw [R.sub'] at this; exact this
+  have hmono := R.mono (!x)
+  have hqwin := R.inv0.qwin x
+  have hqlen := R.inv0.qlen x
+  have hdle := R.inv0.dle x
+  have hql := queueOk_len (R.inv0.q x)
+  unfold Stage1
+  rw [R.sub']
+  by_cases hq : (s.ep x).resendQueue = []
+  · rw [hq] at hqwin; simp at hqwin; omega
+  · obtain ⟨hv, _⟩ := sne hq
+    have hqv := queue_vitals (s.sub x) _ (queueOk_shape (R.inv0.q x))
+    have hcons : Consecutive (s.sub x) ((s.sub x).length - (s.ep x).resendQueue.length)
+        (fls.flatMap (·.chunks)) (s.ep x).resendQueue.length :=
+      consecutive_of_vitals _ _ _ _ (by rw [vitals_flatMap, hv, hqv]) (by omega)
+    have hra := recvList_ack _ _ _ hrl
+    rw [hackb] at hra
+    have := (receive_from_behind (s.sub x) _ _ _ hcons (s.del (!x)).length false (by omega) (by omega) (by omega)).1
+    rw [this] at hra
+    rw [hack'] at hra
+    omega
+
+theorem Round.queue_idle (hc : cfg.Ok) {s sb s' : Sys} (R : Round cfg s sb s') (x : Bool)
+    (hq : (s.ep x).resendQueue = []) :
+    (s'.ep x).resendQueue = [] ∧ ((s.ep x).packet.chunks = [] ∨ True) ∧ (s'.ep x).packet.chunks = [] := by
+  obtain ⟨fls, hsp, _⟩ := R.phase x
+  obtain ⟨_, _, slen, _, spk, _, _, _, _⟩ := sendPhase_spec hc (R.inv0.core x) hsp
+  obtain ⟨flsy, _, hrly⟩ := R.phase (!x)
+  simp only [Bool.not_not] at hrly
+  have hqb : (sb.ep x).resendQueue = [] := by
+    rw [hq] at slen; exact List.length_eq_zero_iff.mp slen
+  obtain ⟨a, b⟩ := recvList_idle _ _ _ hrly hqb
+  exact ⟨a, Or.inr trivial, by rw [b]; exact spk⟩
+
+/-- round 2: the receiver's datagrams now carry the full ack; if it sends none, the retransmissions
+it rejects make it ask for a resend -/
+theorem Round.stage2 (hc : cfg.Ok) {s sb s' : Sys} (R : Round cfg s sb s') (x : Bool) (h1 : Stage1 s x) :
+    Stage2 s' x := by
+  refine ⟨R.stage1 hc x, ?_⟩
+  by_cases hq : (s.ep x).resendQueue = []
+  · exact Or.inl (R.queue_idle hc x hq).1
+  · right
+    obtain ⟨fls, hsp, hrl⟩ := R.phase x
+    obtain ⟨_, _, _, _, _, _, sne, _, _⟩ := sendPhase_spec hc (R.inv0.core x) hsp
+    obtain ⟨hv, pre, last, hfl, hlast⟩ := sne hq
+    have hqv := queue_vitals (s.sub x) _ (queueOk_shape (R.inv0.q x))
+    have hackb : (sb.ep (!x)).ack = (s.del (!x)).length % 1024 := by
+      have := R.invb.ack x; rw [R.delb] at this; exact this
+    have hqlen := R.inv0.qlen x
+    have hql := queueOk_len (R.inv0.q x)
+    unfold Stage1 at h1
+    refine (recvList_rr_set _ _ _ hrl ?_).2 pre last hfl hlast
+    intro p hp c hcm sq r hvit
+    have hm := mem_flVitals hp hcm hvit
+    rw [hv, hqv, List.mem_map] at hm
+    obtain ⟨k, hk, hke⟩ := hm
+    rw [List.mem_range'_1] at hk
+    injection hke with hke1 _
+    rw [hackb, Tw.NetSim.seqNext_eq, ← hke1, h1]
+    omega
+
+/-- round 3: the ack empties the sender's queue -/
+theorem Round.stage3 (hc : cfg.Ok) {s sb s' : Sys} (R : Round cfg s sb s') (x : Bool) (h2 : Stage2 s x) :
+    Stage3 s' x := by
+  refine ⟨R.stage1 hc x, ?_⟩
+  by_cases hq : (s.ep x).resendQueue = []
+  · exact ⟨(R.queue_idle hc x hq).1, (R.queue_idle hc x hq).2.2⟩
+  · have hrr : (s.ep (!x)).requestResend = true := by
+      rcases h2.2 with h | h
+      · exact absurd h hq
+      · exact h
+    obtain ⟨fls, hsp, _⟩ := R.phase x
+    obtain ⟨_, _, slen, _, spk, _, _, _, _⟩ := sendPhase_spec hc (R.inv0.core x) hsp
+    obtain ⟨flsy, hspy, hrly⟩ := R.phase (!x)
+    simp only [Bool.not_not] at hrly
+    obtain ⟨_, _, _, _, _, sacks, _, _, semit⟩ := sendPhase_spec hc (R.inv0.core (!x)) hspy
+    have hne := semit (Or.inr (Or.inr hrr))
+    -- the sender's queue after its own resend: same chunks, the newest has sequence n mod 1024
+    have hqb : (sb.ep x).resendQueue ≠ [] := by
+      intro hh; rw [hh] at slen; exact hq (List.length_eq_zero_iff.mp slen.symm)
+    cases hflsy : flsy with
+    | nil => exact absurd hflsy hne
+    | cons p ps =>
+      cases hqc : (sb.ep x).resendQueue with
+      | nil => exact absurd hqc hqb
+      | cons c rest =>
+        have hcseq : c.seq = (s.sub x).length % 1024 := by
+          have hqs := queueOk_shape (R.invb.q x) 0 c (by rw [hqc]; rfl)
+          rw [R.subb] at hqs
+          simpa using hqs.2.2
+        have hpack : p.ack = c.seq := by
+          rw [sacks p (by rw [hflsy]; simp), R.inv0.ack x, hcseq, h2.1]
+        rw [hflsy] at hrly
+        obtain ⟨a, b⟩ := recvList_acked p ps _ _ hrly c rest hqc hpack
+        exact ⟨a, by rw [b]; exact spk⟩
+
+/-- round 4: nothing vital is sent any more, the receiver's resend request has been flushed -/
+theorem Round.stage4 (hc : cfg.Ok) {s sb s' : Sys} (R : Round cfg s sb s') (x : Bool) (h3 : Stage3 s x) :
+    Stage4 s' x := by
+  obtain ⟨_, hq, hpk⟩ := h3
+  refine ⟨⟨R.stage1 hc x, (R.queue_idle hc x hq).1, (R.queue_idle hc x hq).2.2⟩, ?_⟩
+  obtain ⟨fls, hsp, hrl⟩ := R.phase x
+  obtain ⟨_, _, _, _, _, _, _, semp, _⟩ := sendPhase_spec hc (R.inv0.core x) hsp
+  obtain ⟨flsy, hspy, _⟩ := R.phase (!x)
+  obtain ⟨_, _, _, srr, _, _, _, _, _⟩ := sendPhase_spec hc (R.inv0.core (!x)) hspy
+  have hv := semp hq
+  rw [hpk] at hv
+  exact recvList_rr_false _ _ _ hrl srr (flVitals_nil (by simpa [vitals] using hv))
+
+/-! ## four fair rounds reach quiescence -/
+
+theorem fairRounds_succ (cfg : Cfg) (k : Nat) (s : Sys) :
+    fairRounds cfg (k + 1) s = (fairRound cfg s).bind (fairRounds cfg k) := by
+  simp only [fairRounds]
+  cases fairRound cfg s <;> rfl
+
+/-- **progress**: from every state satisfying the safety invariant, four fair rounds (each side
+resends and flushes, every datagram of the round is delivered once, in order) end in a state where
+everything submitted has been handed over, nothing is unacknowledged or queued and no resend is
+requested -/
+theorem progress_inv {cfg : Cfg} (hc : cfg.Ok) {s : Sys} (h : Inv cfg s) :
+    ∃ s', fairRounds cfg 4 s = some s' ∧ quiescent s' ∧ Inv cfg s' := by
+  obtain ⟨b1, s1, e1, R1⟩ := fairRound_spec hc h
+  obtain ⟨b2, s2, e2, R2⟩ := fairRound_spec hc R1.inv'
+  obtain ⟨b3, s3, e3, R3⟩ := fairRound_spec hc R2.inv'
+  obtain ⟨b4, s4, e4, R4⟩ := fairRound_spec hc R3.inv'
+  refine ⟨s4, ?_, ?_, R4.inv'⟩
+  · simp only [fairRounds_succ, e1, e2, e3, e4, Option.bind_some, fairRounds]
+  · have st : ∀ x, Stage4 s4 x := fun x =>
+      R4.stage4 hc x (R3.stage3 hc x (R2.stage2 hc x (R1.stage1 hc x)))
+    intro x
+    obtain ⟨⟨h1, hq, hp⟩, _⟩ := st x
+    refine ⟨?_, hq, hp, ?_⟩
+    · have := R4.inv'.pre x
+      unfold Stage1 at h1
+      rw [this, h1, List.take_length]
+    · have := (st (!x)).2
+      simpa using this
+
+/-- **C02 (c), online phase**: from every state reachable by any schedule (loss, duplication,
+reordering, delay, arbitrary sends under H1/H2), at most four fair rounds reach quiescence -/
+theorem progress {cfg : Cfg} (hc : cfg.Ok) (ms : List Move) (s : Sys) (hr : run cfg .init ms = some s) :
+    ∃ k s', k ≤ 4 ∧ fairRounds cfg k s = some s' ∧ quiescent s' := by
+  obtain ⟨s', h1, h2, _⟩ := progress_inv hc (run_inv hc ms _ s (init_inv cfg) hr)
+  exact ⟨4, s', Nat.le_refl _, h1, h2⟩
+
 end Tw.OnlineNet
